@@ -96,6 +96,23 @@ SHARING_INPUTS = [
 ]
 
 
+# histories in which an accepted step shares a node without changing the
+# number of compound expressions (a variable replaced by a variable), then
+# further rounds / sweeps follow
+DIRECTED = [
+    ('(declare-const x Int)\n(declare-const y Int)\n(assert (= x y))\n'
+     '(assert (> (+ x 1) (* x 2)))\n(assert (< x 5))\n(check-sat)\n',
+     {'mode': 'contains', 'markers': ['=', 'y', '*', '5']}),
+    ('(declare-const u Bool)\n(declare-const v Bool)\n(assert (= v u))\n'
+     '(assert (or v (not v) (and v u)))\n(assert (=> v v))\n(check-sat)\n',
+     {'mode': 'contains', 'markers': ['=', 'u', 'or', '=>']}),
+    ('(declare-const a Int)\n(declare-const b Int)\n(declare-const c Int)\n'
+     '(assert (= a b c))\n(assert (> (+ a b) (- c a)))\n'
+     '(assert (distinct a 7))\n(check-sat)\n',
+     {'mode': 'contains', 'markers': ['=', '7', '+', '-', 'c']}),
+]
+
+
 def part_b(rep, tier):
     import random
     import corpus
@@ -111,6 +128,12 @@ def part_b(rep, tier):
         st = ('hierarchical', 'ddmin', 'hybrid')[i % 3]
         opts = ['--strategy', st, '-j', str((1, 2, 4)[(i // 3) % 3])]
         cfgs.append((text, spec, opts, {'strategy': st, 'n': i}))
+    for k, (text, spec) in enumerate(DIRECTED):
+        for st in ('ddmin', 'hybrid', 'hierarchical'):
+            for j in ((1, ) if tier == 'quick' else (1, 2)):
+                cfgs.append((text, dict(spec, delay_ms=1),
+                             ['--strategy', st, '-j', str(j)],
+                             {'strategy': st, 'n': f'd{k}'}))
     items = S.validate(rep, S.execute(cfgs, label='c13'))
     nshared = 0
     for it in items:
